@@ -251,7 +251,13 @@ def run_script(sc_id, f, mode, api, sizes, extra):
     from ..endpoints import Task, run_tasks, Outcome, TLSConnection
     from ..wire import socket_pair
     from .c14 import attach_log
-    sc = Scenario(f, "c14b-%d" % sc_id, cextra=extra[0], sextra=extra[1])
+    # every optional argument the blocking wrappers have to hand through to the generators gets a value
+    from ..flavours import build
+    ck, sk = {}, {}
+    if build(f)["kind"] == "cert":
+        ck = {"serverName": "host.example", "alpn": [bytearray(b"http/1.1"), bytearray(b"h2")]}
+        sk = {"alpn": [bytearray(b"h2"), bytearray(b"http/1.1")], "sni": "host.example"}
+    sc = Scenario(f, "c14b-%d" % sc_id, cextra=extra[0], sextra=extra[1], ckw_extra=ck, skw_extra=sk)
     p = sc.pair
     logs = {"c": [], "s": []}
     if mode == "gen":
@@ -307,7 +313,11 @@ def run_script(sc_id, f, mode, api, sizes, extra):
                 break
             outcomes.append(("view", str((p.c.version, p.c.session.cipherSuite,
                                           bytes(p.c.session.masterSecret) == bytes(p.s.session.masterSecret),
-                                          p.c.resumed, p.s.resumed))))
+                                          p.c.resumed, p.s.resumed,
+                                          bytes(p.c.session.appProto or b""), bytes(p.s.session.appProto or b""),
+                                          str(p.c.session.serverName), str(p.s.session.serverName),
+                                          bytes(p.c.next_proto or b""), bytes(p.s.next_proto or b""),
+                                          p.s.session.clientCertChain is not None))))
         if name == "close":
             outcomes.append(("closed", bool(p.c.closed), bool(p.s.closed)))
     return {"outcomes": outcomes, "wire_c": bytes(p.c2s.sent_log), "wire_s": bytes(p.s2c.sent_log),
@@ -366,9 +376,10 @@ def part(rep, tier, validate):
              (F(3, "srp_sha"), none), (F(3, "ecdhe_rsa", ticket=True, resume="ticket"), none),
              # a handshake that fails on both sides (no common version): the exceptions must be the same, too
              (F(3, "ecdhe_rsa"), ({}, {"minVersion": (3, 1), "maxVersion": (3, 2)})),
-             (F(0, "dhe_rsa"), none), (F(2, "dh_anon"), none), (F(4, "tls13", reqCert="cert"), none)]
+             (F(3, "ecdhe_rsa", npn=True), none),
+             (F(0, "dhe_rsa"), none), (F(2, "dh_anon"), none), (F(4, "tls13", reqCert="cert"), none), (F(3, "rsa", resume="id"), none)]
     if tier == "quick":
-        flavs = flavs[:9]
+        flavs = flavs[:10]
     jobs = []
     for si, (f, extra) in enumerate(flavs):
         for ai, api in enumerate(("rw", "sock", "into", "file")):
